@@ -98,6 +98,42 @@ func c13Wallets() []c13Wallet {
 		panic("fixture: Lock did not encrypt")
 	}
 	out = append(out, c13Wallet{Name: "deterministic-encrypted", W: enc, Addr: a, Key: k, Encrypted: true})
+
+	// bip44 wallet as a signing request meets it after a life in encrypted mode: locked, one external (#1) and one change (#0)
+	// address derived WHILE locked (from the chain public keys), then unlocked (the secrets of those entries are filled in by
+	// the unlock path, not by the generation path).  w.addr0 / w.addr1 are exactly those two entries; the expected keys come from
+	// a never-encrypted twin wallet.
+	{
+		lk := newBip44(bipMnemonic(1), bipPassphrases[0], crypto.CryptoTypeSha256Xor)
+		must(lk.Lock([]byte("pw")))
+		_, err := lk.GenerateAddresses(wallet.OptionGenerateN(1))
+		must(err)
+		_, err = lk.GenerateAddresses(wallet.OptionGenerateN(1), wallet.OptionChange())
+		must(err)
+		ul, err := lk.Unlock([]byte("pw"))
+		must(err)
+		twin := newBip44(bipMnemonic(1), bipPassphrases[0], crypto.CryptoTypeSha256Xor)
+		_, err = twin.GenerateAddresses(wallet.OptionGenerateN(1))
+		must(err)
+		_, err = twin.GenerateAddresses(wallet.OptionGenerateN(1), wallet.OptionChange())
+		must(err)
+		te, _ := twin.GetEntries()
+		ue, _ := ul.GetEntries()
+		var ext1, chg0 = -1, -1
+		for i, e := range te {
+			if e.Change == 0 && e.ChildNumber == 1 {
+				ext1 = i
+			}
+			if e.Change == 1 && e.ChildNumber == 0 {
+				chg0 = i
+			}
+		}
+		if ext1 < 0 || chg0 < 0 || len(ue) != len(te) {
+			panic(fmt.Sprintf("fixture: bip44 locked-generation wallet: twin %d entries, unlocked %d", len(te), len(ue)))
+		}
+		a, k = entryKeys(te, ext1, chg0)
+		out = append(out, c13Wallet{Name: "bip44-unlocked-after-generating-while-locked", W: ul, Addr: a, Key: k})
+	}
 	return out
 }
 
